@@ -1,5 +1,6 @@
 import Driver.Util
 import RadicaleModel.UrlSplit
+import RadicaleModel.Netloc
 import RadicaleModel.Quote
 import RadicaleModel.Shell
 open Lean Radicale
@@ -25,6 +26,11 @@ def handleQuote (j : Json) : Json :=
   | "dest" => obj [("r", jStr (Quote.decodeDestination (getBool j "decodes") s))]
   | "urlpath" => obj [("split", jStr (UrlSplit.urlsplitPath s)), ("parse", jStr (UrlSplit.urlparsePath s))]
   | "desturl" => obj [("r", jStr (UrlSplit.decodeDestinationUrl s))]
+  | "moveauth" =>
+    let port : Option Str := match j.getObjVal? "xf_port" with | .ok Json.null => none | .ok v => some (asStr v) | _ => none
+    let e : Netloc.Env := ⟨getStr j "xf_host", getStr j "xf_proto", port, getStr j "host", getStr j "server_name", getStr j "scheme", getStr j "port"⟩
+    obj [("r", Json.str (match Netloc.verdict (getBool j "fixed") e (getStr j "dest") with | .local => "local" | .remote => "remote" | .error => "error")),
+         ("netloc", jStr (Netloc.urlNetloc (getStr j "dest"))), ("dest", jStr (Netloc.destNetloc (getStr j "dest")))]
   | "multigeturl" => obj [("r", jStr (UrlSplit.decodeMultigetUrl s))]
   | "safe" => obj [("comp", Json.bool (Path.safeComp s)), ("fs", Json.bool (Path.safeFsComp s))]
   | "tofs" => match Path.toFilesystem s with
